@@ -120,24 +120,6 @@ theorem C08_no_other (fi : Nat) (f : FileD) (path : List Nat) (r : Ref)
     simp at h
 
 /-! ### every declaration's path is routed to that declaration -/
-theorem idx_mem {α} : ∀ (l : List α) (k : Nat) (x : α), (k, x) ∈ idx l → l[k]? = some x := by
-  intro l
-  induction l with
-  | nil => intro k x h; simp [idx] at h
-  | cons a l ih =>
-    intro k x h
-    rw [idx_cons] at h
-    rcases List.mem_cons.mp h with h | h
-    · cases h; rfl
-    · simp only [List.mem_map] at h
-      obtain ⟨⟨k', x'⟩, hm, he⟩ := h
-      cases he
-      simpa using ih k' x' hm
-
-theorem idx_mem_lt {α} (l : List α) (k : Nat) (x : α) (h : (k, x) ∈ idx l) : k < l.length := by
-  have := idx_mem l k x h
-  exact (List.getElem?_eq_some_iff.mp this).1
-
 /-- what `msgChildAt` is asked for a declaration below a message: an even-length rest that is
     routed to the declaration -/
 def RoutedBelow (fi : Nat) (here : List Nat) (h : MsgHead) (nested : Msgs) (d : Decl) : Prop :=
